@@ -280,7 +280,12 @@ func forType(t reflect.Type, seen map[reflect.Type]bool, ignore bool, schemas ma
 					}
 					continue
 				}
-				namedEmbedded = field.IsExported() && isValidTagName(tagName)
+				// (encoding/json looks at an embedded struct even when its type is unexported.)
+				et := field.Type
+				if et.Kind() == reflect.Pointer {
+					et = et.Elem()
+				}
+				namedEmbedded = isValidTagName(tagName) && (field.IsExported() || et.Kind() == reflect.Struct)
 			}
 			if field.Anonymous && !namedEmbedded {
 				// The struct may be embedded by pointer.
@@ -353,6 +358,13 @@ func forType(t reflect.Type, seen map[reflect.Type]bool, ignore bool, schemas ma
 			}
 
 			info := fieldJSONInfo(field)
+			if namedEmbedded && !field.IsExported() {
+				// A named embedded struct is an ordinary field to encoding/json, whether or
+				// not its type is exported.
+				exported := field
+				exported.PkgPath = ""
+				info = fieldJSONInfo(exported)
+			}
 			if info.omit {
 				continue
 			}
